@@ -68,7 +68,12 @@ class IkeSaController:
         # generate the reply (if any)
         rekeyed_states = (IkeSa.State.REKEYED, IkeSa.State.DEL_AFTER_REKEY_IKE_SA_REQ_SENT)
         was_rekeyed = ike_sa.state in rekeyed_states
-        reply = ike_sa.process_message(data)
+        try:
+            reply = ike_sa.process_message(data)
+        finally:
+            # an IKE_SA_INIT request that could not even be processed does not leave its (never started) IKE_SA behind
+            if ike_sa.state == IkeSa.State.INITIAL and ike_sa in self.ike_sas:
+                self.ike_sas.remove(ike_sa)
 
         # if rekeyed (by this very message), add the new IkeSa
         if ike_sa.state in rekeyed_states and not was_rekeyed:
